@@ -248,7 +248,7 @@ pub fn run(ctx: &Ctx) {
                 (crate::space::u_kind_triples(), vec![Cfg::new(X | NA | NE)], "x+na+ne"),
             ]
         } else {
-            vec![(crate::space::u_kind_pairs(2, 1, false), k1.clone(), "Lambda<=1 incl. c"), (crate::space::u_kind_pairs(1, 2, false), k1.clone(), "Lambda<=1 incl. c"), (crate::space::u_runs(), k1.clone(), "Lambda<=1 incl. c"), (crate::space::u_kind_triples(), vec![Cfg::new(0), Cfg::new(X), Cfg::new(X | NA | NE), Cfg::new(E | U), Cfg::new(C)], "{}, x, x+na+ne, e+u, c"), (crate::space::u_many(40), k1.clone(), "Lambda<=1 incl. c"), (crate::space::u_nested_rep(), vec![Cfg::new(R), Cfg::new(R | X), Cfg::new(R | C), Cfg::new(R | G | E | U)], "r, r+x, r+c, r+g+e+u"), (crate::space::u_long_literal_at(), vec![Cfg::new(X), Cfg::new(X | C), Cfg::new(X | E | U)], "x, x+c, x+e+u")]
+            vec![(crate::space::u_kind_pairs(2, 1, false), k1.clone(), "Lambda<=1 incl. c"), (crate::space::u_kind_pairs(1, 2, false), k1.clone(), "Lambda<=1 incl. c"), (crate::space::u_runs(), k1.clone(), "Lambda<=1 incl. c"), (crate::space::u_kind_triples(), vec![Cfg::new(0), Cfg::new(X), Cfg::new(X | NA | NE), Cfg::new(E | U), Cfg::new(C)], "{}, x, x+na+ne, e+u, c"), (crate::space::u_many(40), k1.clone(), "Lambda<=1 incl. c"), (crate::space::u_nested_rep(), vec![Cfg::new(R), Cfg::new(R | X), Cfg::new(R | C), Cfg::new(R | E), Cfg::new(R | G | E | U)], "r, r+x, r+c, r+e, r+g+e+u"), (crate::space::u_long_literal_at(), vec![Cfg::new(X), Cfg::new(X | C), Cfg::new(X | E | U)], "x, x+c, x+e+u")]
         };
         for (u, cfgs, desc) in plan {
             par_for(u.len(), |i| {
